@@ -17,7 +17,7 @@ def obligations(tier):
         Ob("C19.dump/run", "misc", "c_dump", {}, t, FN, "result of 0..2 entities, base name 1..2 chars, extension 0..3 chars, dump flag, group_by_type: all symbolic"),
         Ob("C19.name/correct_extension", "misc", "c_ext", {}, t, FN, "file names of 1..7 arbitrary characters not ending with a dot", api=False),
         Ob("C19.cli/main", "misc", "c_main", {}, t, FN + ["simple_ddl_parser/cli.py:main (argparse, os.path and os.listdir replaced by fakes)"],
-           "three directory entries with arbitrary names <= 5 chars; path is a file or a directory (symbolic)"),
+           "three directory entries, each any of 7 catalogued names (symbolic indices; with / without / double extensions); path is a file or a directory (symbolic)"),
         Ob("C19.dump/dump_data_to_file", "misc", "c_dump_file", {}, t, ["simple_ddl_parser/output/core.py:dump_data_to_file (open replaced by a recording fake)"],
            "data a flat list / a grouped dict / one table dict x 3 base names (symbolic)"),
         Ob("C19.cli/run_for_file", "misc", "c_cli", {}, t, FN, "path, target (<= 3 chars), --no-dump, -v, -o mode: symbolic", api=False),
